@@ -718,11 +718,17 @@ def rule_tp1(ctx: Ctx) -> RuleResult:
             ok = ("arg", "data_type") in vals and ("arg", "default_value") in vals
             f = linform(v) if v is not None else None
             ln = [a for a in (f[0] if f else {}) if a[0] == "call" and a[1] == ("builtin", "len") and a[2][0] == ("attr", SELF, "states")]
-            ok = ok and f is not None and len(f[0]) == 1 and len(ln) == 1 and f[0][ln[0]] == 1 and f[1] == -1 \
-                and p.trace.index(apps[0]) < len(p.trace) - 1
+            ok = ok and f is not None and len(f[0]) == 1 and len(ln) == 1 and f[0][ln[0]] == 1 and f[1] in (-1, 0)
+            if ok:
+                # where was len(self.states) taken?  in the first assignment whose value contains it, else at the return itself
+                k_app = p.trace.index(apps[0])
+                took = [k for k, e in enumerate(p.trace) if e.k == "assign" and any(x == ln[0] for x in subterms(e.d["value"]))]
+                after = (not took) or took[0] > k_app
+                # the id of the new entry: the length after the append minus one, or the length before it
+                ok = (f[1] == -1 and after) or (f[1] == 0 and not after)
         r.ob(ok, lambda p=p, apps=apps: _topo_f("create_state", m, fn,
-                                               "every path must append exactly one StateDef(name, data_type, default_value) and return len(self.states) - 1 (the id of "
-                                               "the new state); this path appends %d definition(s) and returns %s" % (len(apps), show(p.value) if p.value is not None else None), p))
+                                               "every path must append exactly one StateDef(name, data_type, default_value) and return the index of that entry (len(self.states) - 1 "
+                                               "after the append, or len(self.states) taken before it); this path appends %d definition(s) and returns %s" % (len(apps), show(p.value) if p.value is not None else None), p))
     m2, fn2 = ctx.function(TOPO, "StateTopology.create_mapper")
     r.instances += 1
     for p in ctx.fn_paths(m2, fn2, inline=False):
